@@ -118,6 +118,17 @@ func fidelityMain(args []string) {
 	for run := int64(0); res.Compared < *n && run < int64(*n)*4; run++ {
 		ch := newChooser(runSeed(*seed, "fidelity", run))
 		s := genSession14(ch)
+		// the real OS does not produce the legal-but-rare behaviours the
+		// simulator can (short reads of regular files, stdin as a regular
+		// file): compare on the plain configuration
+		s.FileChunk = 0
+		for pi := range s.Procs {
+			if s.Procs[pi].Stdin != nil {
+				st := *s.Procs[pi].Stdin
+				st.Redirect = false
+				s.Procs[pi].Stdin = &st
+			}
+		}
 		res.Sessions++
 		// three real executions of the whole session
 		var reals [3][]realOut
@@ -171,6 +182,12 @@ func fidelityMain(args []string) {
 					continue
 				}
 			}
+			if !so.same(reals[0][i]) && realIsNondeterministic(bins, *dir, s, i, reals[0][i]) {
+				// the tree under test has map-order nondeterminism here (for
+				// example the v1 merge reader): nothing to compare against
+				res.SelfDisagree++
+				continue
+			}
 			if !so.same(reals[0][i]) {
 				res.Mismatch++
 				msg := fmt.Sprintf("%s %q: sim code=%d stdout=%s stderr=%s files=%v | real code=%d stdout=%s stderr=%s files=%v", s.Procs[i].Bin, s.Procs[i].Argv,
@@ -196,4 +213,41 @@ func keysOf(m map[string]string) []string {
 	}
 	sort.Strings(k)
 	return k
+}
+
+// realIsNondeterministic re-runs the session up to 24 more times on the real
+// binaries and reports whether process i ever behaves differently from ref.
+func realIsNondeterministic(bins map[string]string, dir string, s Session, i int, ref realOut) bool {
+	for rep := 0; rep < 24; rep++ {
+		d := filepath.Join(dir, "again")
+		if err := materialise(d, s); err != nil {
+			return false
+		}
+		var prev []byte
+		for j, p := range s.Procs {
+			var in []byte
+			if p.Stdin != nil {
+				switch {
+				case p.Stdin.From == "data":
+					in = p.Stdin.Data
+				case p.Stdin.From == "prev":
+					in = prev
+				case strings.HasPrefix(p.Stdin.From, "file:"):
+					in, _ = os.ReadFile(filepath.Join(d, strings.TrimPrefix(p.Stdin.From, "file:")))
+				}
+			}
+			ro, err := runReal(bins[p.Bin], d, p, in)
+			if err != nil {
+				return false
+			}
+			prev = ro.Stdout
+			if j == i {
+				if !ro.same(ref) {
+					return true
+				}
+				break
+			}
+		}
+	}
+	return false
 }
